@@ -16,6 +16,16 @@ import (
 // reconstruction, interface-typed positions compared at value level under
 // the codec's representation rules.  It returns "" or the first difference.
 func eqGo(a, b reflect.Value, codec string, path string) string {
+	return eqGoT(a, b, codec, path, true)
+}
+
+// eqGoPlain is eqGo without the struct-tag rules: every exported field is
+// compared.
+func eqGoPlain(a, b reflect.Value, codec string, path string) string {
+	return eqGoT(a, b, codec, path, false)
+}
+
+func eqGoT(a, b reflect.Value, codec string, path string, tags bool) string {
 	if a.Type() != b.Type() {
 		return fmt.Sprintf("%s: type %s != %s", path, a.Type(), b.Type())
 	}
@@ -57,7 +67,7 @@ func eqGo(a, b reflect.Value, codec string, path string) string {
 			return fmt.Sprintf("%s: length %d != %d", path, a.Len(), b.Len())
 		}
 		for i := 0; i < a.Len(); i++ {
-			if d := eqGo(a.Index(i), b.Index(i), codec, fmt.Sprintf("%s[%d]", path, i)); d != "" {
+			if d := eqGoT(a.Index(i), b.Index(i), codec, fmt.Sprintf("%s[%d]", path, i), tags); d != "" {
 				return d
 			}
 		}
@@ -70,7 +80,7 @@ func eqGo(a, b reflect.Value, codec string, path string) string {
 			if !bv.IsValid() {
 				return fmt.Sprintf("%s: key %q missing in the reconstruction", path, k.String())
 			}
-			if d := eqGo(a.MapIndex(k), bv, codec, fmt.Sprintf("%s[%q]", path, k.String())); d != "" {
+			if d := eqGoT(a.MapIndex(k), bv, codec, fmt.Sprintf("%s[%q]", path, k.String()), tags); d != "" {
 				return d
 			}
 		}
@@ -90,7 +100,7 @@ func eqGo(a, b reflect.Value, codec string, path string) string {
 			for y.Kind() == reflect.Ptr {
 				y = y.Elem()
 			}
-			return eqGo(x, y, codec, path+".*")
+			return eqGoT(x, y, codec, path+".*", tags)
 		}
 	case reflect.Interface:
 		ma, erra := model.Fold(a, nil)
@@ -109,6 +119,15 @@ func eqGo(a, b reflect.Value, codec string, path string) string {
 			f := t.Field(i)
 			tag := gen.ParseFieldTag(f)
 			fp := path + "." + f.Name
+			if !tags {
+				if f.PkgPath != "" {
+					continue
+				}
+				if d := eqGoT(a.Field(i), b.Field(i), codec, fp, tags); d != "" {
+					return d
+				}
+				continue
+			}
 			if f.PkgPath != "" || tag.Omit {
 				// dropped by folding: must still be zero in the fresh target
 				if f.PkgPath == "" && !b.Field(i).IsZero() {
@@ -122,7 +141,7 @@ func eqGo(a, b reflect.Value, codec string, path string) string {
 				}
 				continue
 			}
-			if d := eqGo(a.Field(i), b.Field(i), codec, fp); d != "" {
+			if d := eqGoT(a.Field(i), b.Field(i), codec, fp, tags); d != "" {
 				return d
 			}
 		}
